@@ -1,5 +1,6 @@
 package ha
 
+// NOTE: part (2) was repaired by d51cde6 and no longer reproduces; part (1) still does.
 // Replays for two C14 findings made by inspection while writing the contracts; the
 // contracts leave timer semantics (time.AfterFunc firing vs. Stop) undecided, so there is
 // no obligation id. In both, the callback body of a time.AfterFunc timer that has already
